@@ -275,22 +275,16 @@ def dkep2dv(orb, *, da=0, di=0, dOmega=0):
     dv_a = µ * da / (2 * v * a ** 2)
     dangle = np.sqrt(di ** 2 + dOmega ** 2 * np.sin(i) ** 2)
 
-    v_final = orb.infos.v + dv_a
+    v_final = v + dv_a
 
-    # Al-Kashi
-    dv = np.sqrt(
-        orb.infos.v ** 2 + v_final ** 2 - 2 * orb.infos.v * v_final * np.cos(dangle)
-    )
-    dv_t = v_final * np.cos(dangle) - orb.infos.v
+    # The impulse leaves the position unchanged: the orbital plane rotates
+    # by dangle around the radius vector, so only the transverse part of the
+    # velocity (v.cos(fpa)) turns out of the plane
+    sin_fpa, cos_fpa = orb.infos.sin_fpa, orb.infos.cos_fpa
+    half = 2 * v_final * np.sin(dangle / 2) ** 2  # v_final * (1 - cos(dangle))
 
-    ratio = abs(dv_t / dv)
+    dv_t = dv_a - half * cos_fpa ** 2
+    dv_n = -half * sin_fpa * cos_fpa
+    dv_w = v_final * cos_fpa * np.sin(dangle)
 
-    # Due to some floating point operation rounding, this ratio
-    # can be superior to one.
-    if np.isclose(ratio, 1):
-        dv_w = 0
-    else:
-        # equivalent to dv_w = dv * np.sin(np.arccos(ratio))
-        dv_w = dv * np.sqrt(1 - ratio ** 2)
-
-    return np.array([dv_t, 0, dv_w])
+    return np.array([dv_t, dv_n, dv_w])
